@@ -352,6 +352,12 @@ class Alg:
             return acc
         if cv[0] == "V":
             body, n = cv[1], cv[2]
+            if isinstance(n, int) and 0 <= n <= 8:
+                # a sum of statically known small length is its explicit terms
+                acc = Poly()
+                for kk in range(n):
+                    acc = acc.add(self.poly(self.v_at(cv, ("int", kk))))
+                return acc
         else:
             body, n = ("E", cv), self.eng.lens.get(v)
         bp = self.poly(body)
@@ -427,6 +433,12 @@ class Alg:
             # acc' = acc + g(elem): plain sum
             rest = P.add(Poly.atom(lv_self), -1)
             acc = self.poly(info.init[c])
+            if isinstance(n, int) and 0 <= n <= 8:
+                # statically known small trip count: the explicit terms
+                rt = self.poly_term(rest)
+                for kk in range(n):
+                    acc = acc.add(self.poly(self.canon(self.subst_EI(rt, ("int", kk)))))
+                return self.poly_term(acc)
             for m, co in rest.items():
                 inner = tuple((a, p) for a, p in m if self.has_EI(a))
                 outer = tuple((a, p) for a, p in m if not self.has_EI(a))
